@@ -296,6 +296,25 @@ func (server *SugarDB) setExpiry(ctx context.Context, key string, expireAt time.
 	}
 	server.keysWithExpiry.rwMutex.Unlock()
 
+	// Under the volatile policies only keys with a deadline are eviction candidates:
+	// a key whose deadline was removed leaves the candidate heaps too.
+	if expireAt == (time.Time{}) && server.lfuCache.cache != nil && server.lruCache.cache != nil {
+		switch strings.ToLower(server.config.EvictionPolicy) {
+		case constants.VolatileLFU:
+			if cache, ok := server.lfuCache.cache[database]; ok {
+				cache.Mutex.Lock()
+				cache.Delete(key)
+				cache.Mutex.Unlock()
+			}
+		case constants.VolatileLRU:
+			if cache, ok := server.lruCache.cache[database]; ok {
+				cache.Mutex.Lock()
+				cache.Delete(key)
+				cache.Mutex.Unlock()
+			}
+		}
+	}
+
 	// If touch is true, update the keys status in the cache.
 	if touch {
 		go func(ctx context.Context, key string) {
